@@ -18,11 +18,12 @@ Theorem C13_int_roundtrip_sharp :
 Proof. exact int_roundtrip_sharp. Qed.
 Print Assumptions C13_int_roundtrip_sharp.
 
-(* For EVERY integer: what comes back is exactly the nearest binary64 (ties to even), or a
-   range error; the only loss is the float64 rounding, murex's glue (Itoa, TrimSpace, "" -> "0",
+(* For EVERY integer: what comes back is exactly the nearest binary64 (ties to even) — then
+   int(f) as amd64 defines it (-2^63 outside int64) — or ParseFloat's range error; the only loss is the float64 rounding, murex's glue (Itoa, TrimSpace, "" -> "0",
    decimal syntax) adds none. *)
 Theorem C13_int_of_string_itoa : forall z,
-  int_of_string (string_of_int z) = (let f := round53 z in if in_int64 f then Ok f else Err 3).
+  int_of_string (string_of_int z) =
+  (let f := round53 z in if float_overflow f then Err 1 else Ok (go_int_of_float f)).
 Proof. exact int_of_string_itoa. Qed.
 Print Assumptions C13_int_of_string_itoa.
 
@@ -33,6 +34,25 @@ Theorem C13_round53_is_binary64_RNE : forall z : Z,
   round radix2 (FLT_exp (-1074) 53) ZnearestE (IZR z) = IZR (round53 z).
 Proof. exact round53_is_binary64_RNE. Qed.
 Print Assumptions C13_round53_is_binary64_RNE.
+
+(* Corollary that closes the integer round trip through float64 without sampling: for
+   |z| <= 2^53 the decimal string of z denotes exactly z, the correctly rounded (IEEE 754
+   round-to-nearest-even, Flocq) binary64 of that number is z itself, and truncation gives z. *)
+Theorem C13_int_through_binary64_exact : forall z : Z, (Z.abs z <= 2 ^ 53)%Z ->
+  parse_dec_int (itoa z) = Some z /\
+  round radix2 (FLT_exp (-1074) 53) ZnearestE (IZR z) = IZR z /\
+  Ztrunc (round radix2 (FLT_exp (-1074) 53) ZnearestE (IZR z)) = z.
+Proof. exact int_through_binary64_exact. Qed.
+Print Assumptions C13_int_through_binary64_exact.
+
+(* Outside the property's bound (stated for completeness): magnitudes >= 2^63 come back as
+   amd64's -2^63. *)
+Theorem C13_int_beyond_int64 :
+  int_of_string (string_of_int (2 ^ 63)) = Ok (- 2 ^ 63)%Z /\
+  int_of_string (string_of_int (10 ^ 19)) = Ok (- 2 ^ 63)%Z /\
+  int_of_string (string_of_int (- 2 ^ 63)) = Ok (- 2 ^ 63)%Z.
+Proof. exact int_beyond_int64. Qed.
+Print Assumptions C13_int_beyond_int64.
 
 Theorem C13_itoa_parses_back : forall z, parse_dec_int (itoa z) = Some z.
 Proof. exact parse_dec_int_itoa. Qed.
